@@ -777,7 +777,12 @@ class StmtsMixin:
         if mode == "range" and isinstance(node.target, ast.Name) and st.lookup(node.target.id) is None:
             # the loop variable is read after the loop only if it was bound: the range must be
             # non-empty when the variable is used later (python would raise UnboundLocalError)
-            if self.used_after(node, node.target.id):
+            # (a `for ... else` whose else block assigns the variable binds it on the empty-range
+            # path too - the else block runs whenever the loop ends without `break`: no obligation.
+            # False alarm found by benign refactoring BEN-R7B1-1.)
+            else_binds = any(isinstance(x, ast.Assign) and any(isinstance(t, ast.Name) and t.id == node.target.id for t in x.targets)
+                             for x in node.orelse)
+            if self.used_after(node, node.target.id) and not else_binds:
                 self.ctx.oblige(f"loop{ordn}/loop-variable-bound-after-loop", st, lo < hi, kind="safety")
             st.set_local(node.target.id, V.fresh(INT, node.target.id))
 
